@@ -57,4 +57,10 @@ CLAIMED = {
               "The subset and fault-index spaces are exhaustive per case; states/arguments are sampled."),
         note="mem.FS itself uses the fallbacks for helpers it has no method for, so fallback-vs-method differences are only visible on the os.FS leg; RemoveAll of a directory without any Remove is excluded while known finding C08:removeall-dir-without-remove reproduces",
     ),
+    "C16": dict(
+        technique="property-based testing with rapid over generated directories and page-size sequences; oracle = the generated child set (model) + Stat of each child",
+        text=("Generated directories (0-40 children, 200-300 on os.FS, mixed kinds, grandchildren and prefix-named siblings as decoys) on 7 subjects; ReadDir by name is checked for completeness, uniqueness, order and agreement with Stat; "
+              "paged reads on one handle with generated page-size sequences are checked for permutation, no (empty,nil), EOF exactly at the end and n<=0 semantics. Sampled exploration."),
+        note="directories are not mutated between pages; after a mid-way n<=0 call only error-free completion is asserted (the statement pins nothing more)",
+    ),
 }
